@@ -1,0 +1,13 @@
+//go:build verif
+
+package gmtls
+
+// Verification hook (build tag "verif" only) for the concurrency scenarios: lets a
+// test peer emit one record of any content type on an established connection through
+// the package's own unexported writeRecord (c.out's mutex held around
+// writeRecordLocked), e.g. warning alerts, alerts of odd length or level, records of
+// an unknown type, a handshake or ChangeCipherSpec record after the handshake.
+// Nothing here is compiled without the tag, and no existing function is changed.
+func (c *Conn) VerifWriteRecord(typ uint8, data []byte) (int, error) {
+	return c.writeRecord(recordType(typ), data)
+}
